@@ -68,10 +68,23 @@ class CsrfReplayer:
         t = self.sessions[cookie].harvest(self.spk)
         self.tokens[tok] = t[service]
 
-    def present(self, tok: int, cookie: str, service: str, tampered: int) -> int:
+    def respell(self, token: str, spelling: int) -> str:
+        """the same token in another, equivalent percent-encoding (what the service decodes is identical)"""
+        import re as _re
+        from urllib.parse import unquote
+        if spelling == 1:
+            return unquote(token)
+        if spelling == 2:
+            return _re.sub(r'%[0-9A-Fa-f]{2}', lambda m: m.group(0).lower() if m.group(0) != m.group(0).lower() else m.group(0).upper(), token)
+        if spelling == 3:
+            return f'%{ord(token[0]):02X}' + token[1:]
+        return token
+
+    def present(self, tok: int, cookie: str, service: str, tampered: int, spelling: int = 0) -> int:
         from dashlive.utils import verif_trace
+        from urllib.parse import quote
         s = self.sessions[cookie]
-        token = self.tokens[tok]
+        token = self.respell(self.tokens[tok], spelling)
         if tampered:
             # flip one character of the signature part (after the 8 character salt)
             i = 10
@@ -83,7 +96,9 @@ class CsrfReplayer:
                           json={'csrf_token': token, 'name': 'zz', 'title': 'zz', 'periods': []})
             accepted_by_status = r.status_code == 200
         elif service == 'keys':
-            r = s.request('PUT', f'/key?kid={self.kid}&csrf_token={token}')
+            # in a query string the framework decodes once before the handler sees the value: spelling 0 keeps the historic
+            # form of this probe (token pasted as issued), the others are escaped so that they arrive as spelled
+            r = s.request('PUT', f'/key?kid={self.kid}&csrf_token={token if spelling == 0 else quote(token, safe="")}')
             js = r.get_json(silent=True) or {}
             accepted_by_status = 'Duplicate KID' in str(js.get('error'))
         else:
@@ -143,8 +158,13 @@ def csrf_walks(edges: list[dict[str, Any]], da, rng: random.Random, nwalks: int,
          ('issue', 2, 'c2', 'keys', 0), ('present', 2, 'c2', 'keys', 0), ('age', 45, '', '', 0), ('present', 2, 'c2', 'keys', 0),
          ('present', 1, 'c1', 'streams', 0)],
     ]
+    # a used token replayed in every equivalent spelling (JSON body and query string)
+    scripts.append([('issue', 1, 'c1', 'streams', 0)] + [('present', 1, 'c1', 'streams', 0)] * 4 +
+                   [('issue', 2, 'c1', 'keys', 0)] + [('present', 2, 'c1', 'keys', 0)] * 4)
+    spell_scripts = {len(scripts) - 1: [0, 1, 2, 3, 0, 1, 2, 3]}
     for w in range(nwalks):
         tid = w + 1
+        script_spell = list(spell_scripts.get(w, []))
         rp.new_walk(variant=w % 6)
         cur = init
         restarted = 0
@@ -186,9 +206,13 @@ def csrf_walks(edges: list[dict[str, Any]], da, rng: random.Random, nwalks: int,
                 rp.issue(e['tok'], e['cookie'], e['service'])
                 lines.append({'tid': tid, 'ev': 'issue', 'tok': e['tok'], 'cookie': e['cookie'], 'service': e['service']})
             elif e['act'] == 'present':
-                acc = rp.present(e['tok'], e['cookie'], e['service'], e['tampered'])
+                # a token that was accepted before comes back in another, equivalent spelling half of the time
+                spelling = rng.choice([0, 1, 2, 3]) if e['tok'] in accepted_once and not e['tampered'] else 0
+                if script_spell:
+                    spelling = script_spell.pop(0)
+                acc = rp.present(e['tok'], e['cookie'], e['service'], e['tampered'], spelling)
                 lines.append({'tid': tid, 'ev': 'present', 'tok': e['tok'], 'cookie': e['cookie'], 'service': e['service'],
-                              'tampered': e['tampered'], 'accepted': acc, 'exp': e['exp'],
+                              'tampered': e['tampered'], 'accepted': acc, 'exp': e['exp'], 'spelling': spelling,
                               # 1 iff the service was restarted since this token was last accepted
                               'restarted': 1 if e['tok'] in last_accept_epoch and last_accept_epoch[e['tok']] < epoch else 0})
                 tk = e['from']['tokens'][e['tok'] - 1]
